@@ -228,6 +228,25 @@ def check_case(ctx, pm, c, legacy_version=None):
     if bad:
         ctx.violation("decode", "get_date_type_respin(create_compose_id()) == (date, type, respin)",
                       dict(c, id=cid), observed=got, expected=want, key=classify_decode(c, got))
+    # (3b) the id is created from the CURRENT fields: change date/type/respin on the same object (whose compose.id is set by
+    # now) and create again - same id as a fresh object with those fields, and it decodes to them
+    c2 = dict(c, respin=(c["respin"] + 1) % 10 ** 8, date="%08d" % ((int(c["date"]) + 1) % 10 ** 8),
+              ctype=domains.COMPOSE_TYPES[(domains.COMPOSE_TYPES.index(c["ctype"]) + 1) % 5])
+    try:
+        ci.compose.respin, ci.compose.date, ci.compose.type = c2["respin"], c2["date"], c2["ctype"]
+        cid2 = ci.create_compose_id()
+        fresh = build(pm, c2).create_compose_id()
+        got2 = list(pm["decode"](cid2))
+    except Exception as e:
+        cid2, fresh, got2 = "raised %s: %s" % (type(e).__name__, e), None, None
+    bad = cid2 != fresh or got2 != [c2["date"], c2["ctype"], c2["respin"]]
+    if bad and classify_decode(c2, got2) is not None:
+        bad = False
+    ctx.monitor("create-uses-current-fields", fired=bad)
+    if bad:
+        ctx.violation("create-uses-current-fields", "the created id encodes the date/type/respin the object has NOW, whatever id it "
+                      "carried or created before", {"first": dict(c, id=cid), "then": c2}, observed={"id": cid2, "decoded": got2},
+                      expected={"id": fresh, "decoded": [c2["date"], c2["ctype"], c2["respin"]]})
     # (5) legacy document
     if legacy_version is not None and err is None:
         doc = {"header": {"version": legacy_version},
